@@ -155,6 +155,51 @@ func genTables() {
 		})
 		l.f("def %s : List String := %s\n\n", it.name, leanStrList(res))
 	}
+	// disk.go: guards (top-level `if c { return … }`), call order of Put / commit / get
+	topGuards := func(fd *ast.FuncDecl) []string {
+		var out []string
+		for _, st := range fd.Body.List {
+			is, ok := st.(*ast.IfStmt)
+			if !ok || is.Init != nil || is.Else != nil || len(is.Body.List) == 0 {
+				continue
+			}
+			if r, ok := is.Body.List[len(is.Body.List)-1].(*ast.ReturnStmt); ok {
+				parts := make([]string, len(r.Results))
+				for i, e := range r.Results {
+					parts[i] = exprStr(e)
+				}
+				// keep only the shape of the result (function name of a call), not its message
+				for i, p := range parts {
+					if j := strings.Index(p, "("); j > 0 {
+						parts[i] = p[:j]
+					}
+				}
+				out = append(out, exprStr(is.Cond)+" => "+strings.Join(parts, ", "))
+			}
+		}
+		return out
+	}
+	if fd := findFunc("cache/disk/disk.go", "diskCache", "Put"); fd != nil {
+		l.f("def disk_Put_guards : List String := %s\n\n", leanStrList(topGuards(fd)))
+		l.f("def disk_Put_calls : List String := %s\n\n", leanStrList(callsIn(fd.Body,
+			"lru.Reserve", "tfc.Create", "writeAndCloseFile", "proxy.Put", "c.commit", "lru.Unreserve", "os.Remove")))
+	}
+	if fd := findFunc("cache/disk/disk.go", "diskCache", "get"); fd != nil {
+		l.f("def disk_get_guards : List String := %s\n\n", leanStrList(topGuards(fd)))
+		l.f("def disk_get_calls : List String := %s\n\n", leanStrList(callsIn(fd.Body,
+			"availableOrTryProxy", "proxy.Get", "tfc.Create", "io.Copy", "c.commit", "lru.Unreserve", "os.Remove", "GetLegacyZstdReadCloser", "GetZstdReadCloser", "GetUncompressedReadCloser")))
+	}
+	if fd := findFunc("cache/disk/disk.go", "diskCache", "commit"); fd != nil {
+		l.f("def disk_commit_calls : List String := %s\n\n", leanStrList(callsIn(fd.Body,
+			"mu.Lock", "mu.Unlock", "lru.Unreserve", "lru.Add")))
+	}
+	if fd := findFunc("cache/disk/disk.go", "diskCache", "writeAndCloseFile"); fd != nil {
+		l.f("def disk_writeAndCloseFile_calls : List String := %s\n\n", leanStrList(callsIn(fd.Body,
+			"casblob.WriteAndClose", "sha256verifier.New", "io.Copy", "isSizeMismatch", "f.Sync", "writeCloser.Close")))
+	}
+	if fd := findFunc("cache/disk/disk.go", "diskCache", "Contains"); fd != nil {
+		l.f("def disk_Contains_guards : List String := %s\n\n", leanStrList(topGuards(fd)))
+	}
 	// casblob layout: field types of `header`, write order, read order, WriteAndClose step order
 	if f := parse("cache/disk/casblob/casblob.go"); f != nil {
 		var fields []string
